@@ -687,3 +687,90 @@ func (w *WaitGroup) Wait() {
 	t.vc.join(&w.vc)
 	logEv('w', uint64(t.id), uint64(w.ord), 0)
 }
+
+// ---------------------------------------------------------------------------
+// Cond
+
+// Cond simulates sync.Cond: Wait releases L, parks the task until a Signal or Broadcast that comes AFTER the
+// Wait began, and re-acquires L. Which waiter a Signal wakes is the scheduler's choice (a recorded decision).
+type Cond struct {
+	L    sync.Locker
+	real *sync.Cond
+	// simulation
+	waiters []*condWaiter
+	vc      vclock
+}
+
+type condWaiter struct {
+	t     *task
+	woken bool
+}
+
+func (w *condWaiter) canProceed(t *task) bool { return w.woken }
+
+func NewCond(l sync.Locker) *Cond { return &Cond{L: l, real: sync.NewCond(l)} }
+
+func (c *Cond) rc() *sync.Cond {
+	if c.real == nil {
+		c.real = sync.NewCond(c.L)
+	}
+	return c.real
+}
+
+func (c *Cond) Wait() {
+	if !active || cur == nil {
+		c.rc().Wait()
+		return
+	}
+	t := cur
+	w := &condWaiter{t: t}
+	c.waiters = append(c.waiters, w)
+	c.L.Unlock()
+	probe("cond_wait")
+	block(t, w)
+	t.vc.join(&c.vc)
+	c.L.Lock()
+}
+
+func (c *Cond) Signal() {
+	if !active || cur == nil {
+		c.rc().Signal()
+		return
+	}
+	t := cur
+	point(t, -1, ClsSync, true)
+	c.vc.join(&t.vc)
+	t.vc[t.id]++
+	if len(c.waiters) == 0 {
+		return
+	}
+	i := 0
+	if len(c.waiters) > 1 {
+		key := [2]uint64{uint64(t.id) | 1<<40, t.local}
+		if cfg.Replay {
+			if d, ok := replay[key]; ok && d.To >= 0 && d.To < len(c.waiters) {
+				i = d.To
+			}
+		} else {
+			i = rng.intn(len(c.waiters))
+		}
+		decided = append(decided, Decision{T: t.id, L: t.local, To: i, Sel: true})
+	}
+	c.waiters[i].woken = true
+	c.waiters = append(c.waiters[:i], c.waiters[i+1:]...)
+}
+
+func (c *Cond) Broadcast() {
+	if !active || cur == nil {
+		c.rc().Broadcast()
+		return
+	}
+	t := cur
+	point(t, -1, ClsSync, true)
+	c.vc.join(&t.vc)
+	t.vc[t.id]++
+	for _, w := range c.waiters {
+		w.woken = true
+	}
+	c.waiters = nil
+}
